@@ -111,7 +111,7 @@ def parseEq (s : String) : Option (String × String) :=
 def parseOptBroker (s : String) : Option (Option Broker) :=
   if s == "none" then some none else (parseBroker s).map some
 
-def parseCache (ws : List String) : Option Cache :=
+def parseCache6 (ws : List String) : Option Cache :=
   match ws with
   | [bs, cls, t2b, parts, errs, groups] => do
     let bs ← parseBrokers bs
@@ -131,6 +131,20 @@ def parseCache (ws : List String) : Option Cache :=
     some { brokers := bs.map (fun b => (b.nodeId, b)), clients := cls.map (fun b => (b.nodeId, b)),
            t2b := t2b, topicParts := parts, topicErrs := errs, partMeta := [], groups := groups }
   | _ => none
+
+/-- six fields, or seven: `partition_meta` (`topic:part=err:leader`) last -/
+def parseCache (ws : List String) : Option Cache :=
+  match ws with
+  | [bs, cls, t2b, parts, errs, groups, pmeta] => do
+    let c ← parseCache6 [bs, cls, t2b, parts, errs, groups]
+    let pm ← (splitList "," pmeta).mapM (fun e => do
+      let (k, v) ← parseEq e
+      let key ← parseKey k
+      match v.splitOn ":" with
+      | [er, ld] => some (key, ({ err := ← er.toInt?, part := key.2, leader := ← ld.toInt? } : PartMeta))
+      | _ => none)
+    some { c with partMeta := pm }
+  | _ => parseCache6 ws
 
 def verdict (b : Bool) : List String := [if b then "ok" else "fail"]
 
@@ -400,7 +414,7 @@ def netStep (n : NetSt) (ws : List String) : Option (NetSt × List String) :=
                        retryDelay := ← parseRat retry }
     some ({ cfg := cfg, st := {}, trace := [] }, ["ok"])
   | ["t-reset"] => some ({ n with trace := [] }, ["ok"])
-  | ["mon-c07"] => some (n, failsLine (Afkak.Monitor.C07.run n.cfg n.trace.reverse).fails)
+  | ["mon-c07"] => some (n, failsLine ((Afkak.Monitor.C07.run n.cfg n.trace.reverse).fails ++ (Afkak.Monitor.C07.run n.cfg n.trace.reverse).staleFails))
   | ["mon-c11"] => some (n, failsLine ((Afkak.Monitor.C11.run n.cfg n.trace.reverse).fails ++ (Afkak.Monitor.C11.run n.cfg n.trace.reverse).extraFails))
   | ["mon-c20"] => some (n, failsLine ((Afkak.Monitor.C20.run n.trace.reverse).fails ++ (Afkak.Monitor.C20.run n.trace.reverse).bootFails))
   | ["mon-iface"] => some (n, failsLine (Afkak.ClientIface.run n.trace.reverse).fails)
